@@ -13,7 +13,9 @@
 //       path   : <kind>:<prio>:<script>
 //                kind  t = transport hint (tcp)   r = relay transport hint   c = control hint
 //                      f = control:// fallback    l = the local daemon (at most one)
-//                script (control kinds c f l): ok=<hex> | nop | err | trunc=<hex> | nostatus=<hex> | down
+//                script (control kinds c f l): ok=<hex> | nop | err | trunc=<hex> | nostatus=<hex> | down |
+//                       oks<N>=<hex> (SIZE header says N) | oksx=<hex> (no SIZE header) | oksj=<hex> (SIZE is not a number) |
+//                       okl<N>=<hex> (PAYLOAD-LENGTH says N, all bytes are sent)
 //                script (transport kinds t r): chunk=<hex-of-the-plaintext-it-decrypts-to> | nack | close |
 //                                               badhs | down
 //       -> exit=<code> file=<-|hex> tried=<i,j,...|->      (indices of the endpoints that received a
@@ -243,6 +245,18 @@ bool serve_control(int c, const std::string& script) {
     if (verb == "ok") {
         send_str(c, "STATUS:OK\nCODE:OK_FETCH\nSIZE:" + std::to_string(body.size()) + "\nSTREAM:CLIENT\nPAYLOAD-LENGTH:" +
                         std::to_string(body.size()) + "\n\n" + body);
+    } else if (verb.rfind("oks", 0) == 0) {
+        // the SIZE header disagrees with (or is missing from / is garbage in) the response: oks<digits> | oksx | oksj
+        const std::string spec = verb.substr(3);
+        std::string size_line;
+        if (spec == "x") size_line = "";
+        else if (spec == "j") size_line = "SIZE:12abc\n";
+        else size_line = "SIZE:" + spec + "\n";
+        send_str(c, "STATUS:OK\nCODE:OK_FETCH\n" + size_line + "STREAM:CLIENT\nPAYLOAD-LENGTH:" + std::to_string(body.size()) + "\n\n" + body);
+    } else if (verb.rfind("okl", 0) == 0) {
+        // PAYLOAD-LENGTH announces fewer bytes than are sent (SIZE names the full length): the client reads a prefix
+        send_str(c, "STATUS:OK\nCODE:OK_FETCH\nSIZE:" + std::to_string(body.size()) + "\nSTREAM:CLIENT\nPAYLOAD-LENGTH:" + verb.substr(3) +
+                        "\n\n" + body);
     } else if (verb == "nop") {
         send_str(c, "STATUS:OK\nCODE:OK_FETCH\nOUTPUT:/nonexistent/remote.bin\nSIZE:3\n\n");
     } else if (verb == "trunc") {
